@@ -849,7 +849,19 @@ def mm_dict_update(interp, self, args, kwargs):
     return self.update(*args, **kwargs)
 
 
+def _shape_only(f):
+    """natives that only look at the type of their argument: safe with symbolic leaves"""
+    def m(interp, args, kwargs):
+        return f(*args, **kwargs)
+    return m
+
+
 def install(interp):
+    import inspect
+    for nm in ("isclass", "isfunction", "ismethod", "isgenerator", "isdatadescriptor", "ismethoddescriptor",
+               "isbuiltin", "isroutine", "isgeneratorfunction", "iscoroutine", "isawaitable"):
+        interp.models[getattr(inspect, nm)] = _shape_only(getattr(inspect, nm))
+    interp.models[id] = _shape_only(id)
     a = interp.always
     m = interp.models
     a[len] = _len_always
